@@ -376,6 +376,7 @@ pub mod vx_export {
     /// C10 witness: publish batch 0, then publish batch 1 while the k-th database operation of that call fails (k counted from 0 over
     /// reads and writes; k beyond the number of operations = no fault), with (`cache`) or without the object cache; then observe the
     /// directory through the same instance, retry the publish and compare with a fault-free reference run.
+    pub static C10_COLD_CACHE: AtomicBool = AtomicBool::new(false);
     pub async fn c10_fault_at<TC: Configuration>(cache: bool, k: i64, retry_other: bool, parallel: bool) -> Result<C10Outcome, AkdError> {
         let par = || if parallel { AzksParallelismConfig::default() } else { AzksParallelismConfig::disabled() };
         use std::sync::atomic::AtomicI64;
@@ -399,6 +400,7 @@ pub mod vx_export {
         let dir = Directory::<TC, _, _>::new(storage.clone(), vrf.clone(), par()).await?;
         dir.publish(c10_batch(0)).await?;
         let before = dir.get_epoch_hash().await?;
+        if C10_COLD_CACHE.load(Ordering::SeqCst) { storage.flush_cache().await; }   // cached manager whose cache is cold at the faulty call
         db.ops.store(0, Ordering::SeqCst);
         db.fail_at.store(k, Ordering::SeqCst);
         let r = dir.publish(c10_batch(1)).await;
@@ -726,6 +728,19 @@ pub mod vx_export {
                 }
             }
         }
+        // a batch that names a label twice in a row: one proof per requested label, each the label's own
+        if n >= 2 {
+            let req = vec![name(0), name(1), name(1), name(0)];
+            match dir.batch_lookup(&req).await {
+                Ok((proofs, eh)) => {
+                    if proofs.len() != req.len() { bad.push(format!("batch_lookup of {} labels (one repeated) returned {} proofs", req.len(), proofs.len())); }
+                    for (l, proof) in req.iter().zip(proofs.into_iter()) {
+                        if let Err(e) = lookup_verify::<TC>(pk.as_bytes(), eh.hash(), eh.epoch(), l.clone(), proof) { bad.push(format!("batch_lookup with a repeated label: the proof at the position of {:?} does not verify for it: {e}", l)); }
+                    }
+                }
+                Err(e) => bad.push(format!("batch_lookup with a repeated label failed: {e}")),
+            }
+        }
         Ok(bad)
     }
 
@@ -790,6 +805,50 @@ pub mod vx_export {
             }
         });
         match r { Ok(true) => "ok".to_string(), Ok(false) => "err".to_string(), Err(_) => "panic".to_string() }
+    }
+
+    // ---- C11 (BOUNDED: the property's own scenario at ONE crash point - everything of epoch 3 written except the epoch record):
+    // epoch 1 publishes alice and bob, epoch 2 only bob, epoch 3 both; the epoch record is put back to epoch 2; a fresh read-only instance
+    // must report epoch 2 and its root hash, its lookups / histories must verify to alice's epoch-1 value and bob's epoch-2 value, and
+    // once the epoch-3 record is written a fresh instance serves epoch 3.
+    pub async fn c11_partial_commit<TC: Configuration>(cache: bool) -> Result<Vec<String>, AkdError> {
+        let db = AsyncInMemoryDatabase::new();
+        let mk = || if cache { StorageManager::new(db.clone(), None, None, None) } else { StorageManager::new_no_cache(db.clone()) };
+        let dir = Directory::<TC, _, _>::new(StorageManager::new_no_cache(db.clone()), HardCodedAkdVRF {}, AzksParallelismConfig::disabled()).await?;
+        let kv = |k: &str, v: &str| (AkdLabel::from(k), AkdValue::from(v));
+        let e1 = dir.publish(vec![kv("alice", "alice_1"), kv("bob", "bob_1")]).await?;
+        let e2 = dir.publish(vec![kv("bob", "bob_2")]).await?;
+        let rec2 = db.get::<Azks>(&crate::append_only_zks::DEFAULT_AZKS_KEY).await.map_err(AkdError::Storage)?;
+        let e3 = dir.publish(vec![kv("alice", "alice_3"), kv("bob", "bob_3")]).await?;
+        let rec3 = db.get::<Azks>(&crate::append_only_zks::DEFAULT_AZKS_KEY).await.map_err(AkdError::Storage)?;
+        db.set(rec2).await.map_err(AkdError::Storage)?;      // the commit of epoch 3 has written everything but the epoch record
+        let pk = dir.get_public_key().await?;
+        let mut bad = vec![];
+        let reader = ReadOnlyDirectory::<TC, _, _>::new(mk(), HardCodedAkdVRF {}, AzksParallelismConfig::disabled()).await?;
+        let eh = reader.get_epoch_hash().await?;
+        if eh.epoch() != e2.epoch() || eh.hash() != e2.hash() { bad.push(format!("the reader of the partial commit reports epoch {} instead of (2, root hash of epoch 2)", eh.epoch())); }
+        for (name, want, ver) in [("alice", "alice_1", 1u64), ("bob", "bob_2", 2u64)] {
+            match reader.lookup(AkdLabel::from(name)).await {
+                Ok((proof, h)) => match lookup_verify::<TC>(pk.as_bytes(), h.hash(), h.epoch(), AkdLabel::from(name), proof) {
+                    Ok(r) => if r.value != AkdValue::from(want) || r.version != ver { bad.push(format!("lookup({name}) at the partial commit verified to {:?} (version {}) instead of {want}", String::from_utf8_lossy(&r.value.0), r.version)); },
+                    Err(e) => bad.push(format!("lookup({name}) at the partial commit does not verify: {e}")),
+                },
+                Err(e) => bad.push(format!("lookup({name}) at the partial commit failed: {e}")),
+            }
+            match reader.key_history(&AkdLabel::from(name), HistoryParams::Complete).await {
+                Ok((proof, h)) => match key_history_verify::<TC>(pk.as_bytes(), h.hash(), h.epoch(), AkdLabel::from(name), proof, HistoryVerificationParams::default()) {
+                    Ok(rs) => if rs.first().map(|r| r.value.clone()) != Some(AkdValue::from(want)) { bad.push(format!("key_history({name}) at the partial commit starts with a value of the unfinished epoch")); },
+                    Err(e) => bad.push(format!("key_history({name}) at the partial commit does not verify: {e}")),
+                },
+                Err(e) => bad.push(format!("key_history({name}) at the partial commit failed: {e}")),
+            }
+        }
+        if let Ok(p) = reader.audit(1, 2).await { if crate::auditor::audit_verify::<TC>(vec![e1.hash(), e2.hash()], p).await.is_err() { bad.push("the audit proof 1 -> 2 served at the partial commit does not verify".to_string()); } }
+        db.set(rec3).await.map_err(AkdError::Storage)?;
+        let reader3 = ReadOnlyDirectory::<TC, _, _>::new(mk(), HardCodedAkdVRF {}, AzksParallelismConfig::disabled()).await?;
+        let eh3 = reader3.get_epoch_hash().await?;
+        if eh3.epoch() != e3.epoch() || eh3.hash() != e3.hash() { bad.push("after the epoch record was written a fresh reader does not serve epoch 3".to_string()); }
+        Ok(bad)
     }
 
     // ---- C13: a request racing a publish (deterministic: the database wrapper runs a publish of ANOTHER directory instance over the
